@@ -5,10 +5,12 @@ pub mod c02;
 pub mod c03;
 pub mod c05;
 pub mod c10;
+pub mod c11;
+pub mod c12;
 
 use crate::engine::Cfg;
 
-pub const SCENARIOS: &[&str] = &["c01", "c02a", "c02b", "c03", "c05", "c10s", "c10f"];
+pub const SCENARIOS: &[&str] = &["c01", "c02a", "c02b", "c03", "c05", "c10s", "c10f", "c11c", "c11b", "c11w", "c12"];
 
 pub fn run(name: &str, seed: u64, ov: impl FnMut(&mut Cfg)) -> ! {
     match name {
@@ -19,6 +21,10 @@ pub fn run(name: &str, seed: u64, ov: impl FnMut(&mut Cfg)) -> ! {
         "c05" => c05::run(seed, ov),
         "c10s" => c10::run_sem(seed, ov),
         "c10f" => c10::run_flag(seed, ov),
+        "c11c" => c11::run_condvar(seed, ov),
+        "c11b" => c11::run_barrier(seed, ov),
+        "c11w" => c11::run_waitgroup(seed, ov),
+        "c12" => c12::run(seed, ov),
         _ => {
             eprintln!("unknown scenario {}", name);
             std::process::exit(2);
